@@ -4,6 +4,8 @@
   lean/Varlink/Service.lean (`getInfoReply`, `Registry.description`, the built-in dispatcher).
 -/
 import Varlink.Registry
+import Varlink.Extracted.Code
+import Varlink.ExpectedCode
 namespace Varlink.C13
 open Varlink
 
@@ -273,5 +275,11 @@ example : (s0.step (.register (str "a.b") (str "interface a.b"))).2 = .ok := by 
 example : (s1.step (.register (str "a.b") (str "other"))).2 = .refusedDuplicate := by decide
 example : (((s1.step .listenStarts).1).step (.register (str "c.d") [])).2 = .refusedRunning := by decide
 example : s1.reg.names = [orgVarlinkService, str "a.b"] := by decide
+
+/-- **Tie to the source**: the declarations of /repo that this property's model transliterates
+    (`Extracted.codeNames_C13`) have, in the current working tree, exactly the fingerprints of the code the
+    model was validated against. Any change to them breaks this obligation; the check then searches the
+    correspondence streams for an input on which the changed code violates the property. -/
+theorem modelled_code_unchanged : Varlink.Extracted.code_C13 = Varlink.ExpectedCode.code_C13 := by decide
 
 end Varlink.C13
